@@ -21,6 +21,19 @@
 //!        deflate.rs::decode) of arbitrary / damaged CDATA into a buffer of `limit` bytes, compared with the
 //!        model's RFC 1951 inflater: obs = Ok:<out hex>:<unconsumed input bytes> | Err
 //!
+//!   fx  payload                        a frame whose CDATA are one fixed-Huffman block of literals (the
+//!        model's second compressor `deflate_fixed_lit`, re-implemented here bit by bit) read by the real
+//!        reader: obs = <cdata hex>|<read_to_end>
+//!
+//!   tk  tokens                         a frame whose CDATA are one fixed-Huffman block coding a sequence of
+//!        LZ77 tokens (l<byte> | m<len>:<dist>; the model's `deflate_fixed_tokens`, re-implemented here) read by
+//!        the real reader: obs = <cdata hex>|<read_to_end>; the reader must return the LZ77 expansion
+//!
+//!   dy  cll ll dl tokens               the same with one dynamic-Huffman block: code lengths of the code-length,
+//!        literal/length and distance alphabets (complete codes generated at random around the symbols
+//!        the tokens use) and the tokens; the encoder here assigns canonical codes with the next_code
+//!        algorithm of RFC 1951 3.2.2 (the model builds trees): obs = <cdata hex>|<read_to_end>
+//!
 //! The model's reader uses its own (Gallina, extracted) inflater for every frame of every wr / rd /
 //! rdbig case; level-0 CDATA are produced by the model's own `deflate_stored`.  The table only
 //! carries what zlib-rs produced at levels 1..9.
@@ -780,6 +793,365 @@ fn gen_inf(rng: &mut Rng, w: &mut CaseWriter, n: usize) {
     }
 }
 
+struct BitW {
+    out: Vec<u8>,
+    acc: u32,
+    n: u32,
+}
+
+impl BitW {
+    fn new() -> Self {
+        BitW { out: Vec::new(), acc: 0, n: 0 }
+    }
+    fn put(&mut self, bit: u32) {
+        self.acc |= bit << self.n;
+        self.n += 1;
+        if self.n == 8 {
+            self.out.push(self.acc as u8);
+            self.acc = 0;
+            self.n = 0;
+        }
+    }
+    /// Huffman codes are packed most significant bit first
+    fn code(&mut self, value: u32, len: u32) {
+        for i in (0..len).rev() {
+            self.put((value >> i) & 1);
+        }
+    }
+    /// other fields least significant bit first
+    fn bits(&mut self, value: u32, len: u32) {
+        for i in 0..len {
+            self.put((value >> i) & 1);
+        }
+    }
+    /// literal/length symbol with the fixed code of RFC 1951 3.2.6
+    fn litlen(&mut self, sym: u32) {
+        match sym {
+            0..=143 => self.code(0x30 + sym, 8),
+            144..=255 => self.code(0x190 + (sym - 144), 9),
+            256..=279 => self.code(sym - 256, 7),
+            _ => self.code(0xc0 + (sym - 280), 8),
+        }
+    }
+    fn finish(mut self) -> Vec<u8> {
+        if self.n > 0 {
+            self.out.push(self.acc as u8);
+        }
+        self.out
+    }
+}
+
+/// RFC 1951 3.2.6: one final fixed-Huffman block, every byte a literal, then end-of-block
+fn fixed_literal_stream(data: &[u8]) -> Vec<u8> {
+    let mut w = BitW::new();
+    // BFINAL = 1, BTYPE = 01 (LSB first)
+    w.bits(1, 1);
+    w.bits(1, 2);
+    for &b in data {
+        w.litlen(b as u32);
+    }
+    w.litlen(256);
+    w.finish()
+}
+
+#[derive(Clone, Copy)]
+enum Tok {
+    Lit(u8),
+    Match(usize, usize),
+}
+
+const T_LENS: [usize; 29] = [3, 4, 5, 6, 7, 8, 9, 10, 11, 13, 15, 17, 19, 23, 27, 31, 35, 43, 51, 59, 67, 83, 99, 115, 131, 163, 195, 227, 258];
+const T_LEXT: [u32; 29] = [0, 0, 0, 0, 0, 0, 0, 0, 1, 1, 1, 1, 2, 2, 2, 2, 3, 3, 3, 3, 4, 4, 4, 4, 5, 5, 5, 5, 0];
+const T_DISTS: [usize; 30] = [
+    1, 2, 3, 4, 5, 7, 9, 13, 17, 25, 33, 49, 65, 97, 129, 193, 257, 385, 513, 769, 1025, 1537, 2049, 3073, 4097, 6145, 8193,
+    12289, 16385, 24577,
+];
+const T_DEXT: [u32; 30] = [0, 0, 0, 0, 1, 1, 2, 2, 3, 3, 4, 4, 5, 5, 6, 6, 7, 7, 8, 8, 9, 9, 10, 10, 11, 11, 12, 12, 13, 13];
+
+/// one final fixed-Huffman block coding the tokens (3.2.5: last base <= value, extra bits LSB first)
+fn fixed_token_stream(ts: &[Tok]) -> Vec<u8> {
+    let mut w = BitW::new();
+    w.bits(1, 1);
+    w.bits(1, 2);
+    for t in ts {
+        match *t {
+            Tok::Lit(b) => w.litlen(b as u32),
+            Tok::Match(len, dist) => {
+                let i = T_LENS.iter().rposition(|&b| b <= len).unwrap();
+                w.litlen(257 + i as u32);
+                w.bits((len - T_LENS[i]) as u32, T_LEXT[i]);
+                let j = T_DISTS.iter().rposition(|&b| b <= dist).unwrap();
+                w.code(j as u32, 5);
+                w.bits((dist - T_DISTS[j]) as u32, T_DEXT[j]);
+            }
+        }
+    }
+    w.litlen(256);
+    w.finish()
+}
+
+fn expand_tokens(ts: &[Tok]) -> Vec<u8> {
+    let mut out = Vec::new();
+    for t in ts {
+        match *t {
+            Tok::Lit(b) => out.push(b),
+            Tok::Match(len, dist) => {
+                for _ in 0..len {
+                    out.push(out[out.len() - dist]);
+                }
+            }
+        }
+    }
+    out
+}
+
+fn parse_tokens(s: &str) -> Vec<Tok> {
+    if s == "-" {
+        return vec![];
+    }
+    s.split(',')
+        .map(|t| match t.as_bytes()[0] {
+            b'l' => Tok::Lit(t[1..].parse().unwrap()),
+            _ => {
+                let (l, d) = t[1..].split_once(':').unwrap();
+                Tok::Match(l.parse().unwrap(), d.parse().unwrap())
+            }
+        })
+        .collect()
+}
+
+fn tokens_str(ts: &[Tok]) -> String {
+    if ts.is_empty() {
+        return "-".into();
+    }
+    ts.iter()
+        .map(|t| match t {
+            Tok::Lit(b) => format!("l{b}"),
+            Tok::Match(l, d) => format!("m{l}:{d}"),
+        })
+        .collect::<Vec<_>>()
+        .join(",")
+}
+
+/// random valid token sequences: every length 3..258 and distances over the whole table (up to 32768)
+fn gen_tk(rng: &mut Rng, w: &mut CaseWriter, n: usize) {
+    let push = |w: &mut CaseWriter, ts: &[Tok]| w.push("tk", vec![tokens_str(ts)]);
+    push(w, &[]);
+    push(w, &[Tok::Lit(97), Tok::Match(5, 1), Tok::Lit(98), Tok::Match(3, 7)]);
+    push(w, &[Tok::Lit(0), Tok::Match(258, 1), Tok::Match(258, 259), Tok::Match(3, 517)]);
+    // every length symbol boundary at distance 1, every distance symbol boundary after a long run
+    let mut ts = vec![Tok::Lit(7)];
+    for &l in T_LENS.iter() {
+        ts.push(Tok::Match(l, 1));
+        if l + 1 <= 258 {
+            ts.push(Tok::Match(l + 1, 2));
+        }
+    }
+    push(w, &ts);
+    let mut ts = vec![Tok::Lit(1), Tok::Lit(2), Tok::Lit(3)];
+    let mut have = 3usize;
+    while have < 33000 {
+        ts.push(Tok::Match(258, 3));
+        have += 258;
+    }
+    for &d in T_DISTS.iter() {
+        ts.push(Tok::Match(4, d));
+        ts.push(Tok::Match(3, (d + 1).min(32768)));
+    }
+    ts.push(Tok::Match(10, 32768));
+    push(w, &ts);
+    for _ in 0..n {
+        let ts = random_tokens(rng);
+        push(w, &ts);
+    }
+}
+
+fn random_tokens(rng: &mut Rng) -> Vec<Tok> {
+    {
+        let mut ts = Vec::new();
+        let mut have = 0usize;
+        let target = rng.range(1, 3000) as usize;
+        while have < target {
+            if have == 0 || rng.chance(1, 2) {
+                ts.push(Tok::Lit(rng.next() as u8));
+                have += 1;
+            } else {
+                let len = match rng.below(4) {
+                    0 => rng.range(3, 10) as usize,
+                    1 => *rng.pick(&T_LENS),
+                    _ => rng.range(3, 258) as usize,
+                };
+                let dist = match rng.below(3) {
+                    0 => rng.range(1, 4.min(have as u64)) as usize,
+                    1 => have,
+                    _ => rng.range(1, have.min(32768) as u64) as usize,
+                };
+                ts.push(Tok::Match(len, dist.min(32768)));
+                have += len;
+            }
+        }
+        ts
+    }
+}
+
+/// lengths of a random complete prefix code over `symbols` (at most `maxbits` bits), 0 elsewhere;
+/// a single symbol gets a 1-bit code
+fn random_code_lengths(rng: &mut Rng, symbols: &[usize], maxbits: u32, alphabet: usize) -> Vec<usize> {
+    fn assign(rng: &mut Rng, syms: &[usize], depth: u32, maxbits: u32, out: &mut Vec<usize>) {
+        if syms.len() == 1 {
+            out[syms[0]] = depth as usize;
+            return;
+        }
+        let n = syms.len();
+        let cap = 1usize << (maxbits - depth - 1);
+        let lo = if n > cap { n - cap } else { 1 };
+        let hi = (n - 1).min(cap);
+        let k = rng.range(lo as u64, hi as u64) as usize;
+        assign(rng, &syms[..k], depth + 1, maxbits, out);
+        assign(rng, &syms[k..], depth + 1, maxbits, out);
+    }
+    let mut out = vec![0usize; alphabet];
+    let mut syms = symbols.to_vec();
+    // shuffle
+    for i in (1..syms.len()).rev() {
+        let j = rng.below(i as u64 + 1) as usize;
+        syms.swap(i, j);
+    }
+    match syms.len() {
+        0 => {}
+        1 => out[syms[0]] = 1,
+        _ => assign(rng, &syms, 0, maxbits, &mut out),
+    }
+    out
+}
+
+/// canonical codes (RFC 1951 3.2.2: bl_count / next_code)
+fn canonical_codes(lengths: &[usize]) -> Vec<u32> {
+    let mut bl_count = [0u32; 16];
+    for &l in lengths {
+        bl_count[l] += 1;
+    }
+    bl_count[0] = 0;
+    let mut next_code = [0u32; 16];
+    let mut code = 0u32;
+    for bits in 1..16 {
+        code = (code + bl_count[bits - 1]) << 1;
+        next_code[bits] = code;
+    }
+    lengths
+        .iter()
+        .map(|&l| {
+            if l == 0 {
+                0
+            } else {
+                let c = next_code[l];
+                next_code[l] += 1;
+                c
+            }
+        })
+        .collect()
+}
+
+fn tok_symbols(t: &Tok) -> (usize, Option<usize>) {
+    match *t {
+        Tok::Lit(b) => (b as usize, None),
+        Tok::Match(len, dist) => (
+            257 + T_LENS.iter().rposition(|&b| b <= len).unwrap(),
+            Some(T_DISTS.iter().rposition(|&b| b <= dist).unwrap()),
+        ),
+    }
+}
+
+/// one final dynamic-Huffman block: HCLEN = 15, no repeat codes
+fn dynamic_token_stream(cll: &[usize], ll: &[usize], dl: &[usize], ts: &[Tok]) -> Vec<u8> {
+    const ORDER: [usize; 19] = [16, 17, 18, 0, 8, 7, 9, 6, 10, 5, 11, 4, 12, 3, 13, 2, 14, 1, 15];
+    let (clc, lc, dc) = (canonical_codes(cll), canonical_codes(ll), canonical_codes(dl));
+    let mut w = BitW::new();
+    w.bits(1, 1);
+    w.bits(2, 2);
+    w.bits((ll.len() - 257) as u32, 5);
+    w.bits((dl.len() - 1) as u32, 5);
+    w.bits(15, 4);
+    for &o in ORDER.iter() {
+        w.bits(cll[o] as u32, 3);
+    }
+    for &l in ll.iter().chain(dl.iter()) {
+        w.code(clc[l], cll[l] as u32);
+    }
+    for t in ts {
+        match *t {
+            Tok::Lit(b) => w.code(lc[b as usize], ll[b as usize] as u32),
+            Tok::Match(len, dist) => {
+                let (ls, ds) = tok_symbols(t);
+                let ds = ds.unwrap();
+                w.code(lc[ls], ll[ls] as u32);
+                w.bits((len - T_LENS[ls - 257]) as u32, T_LEXT[ls - 257]);
+                w.code(dc[ds], dl[ds] as u32);
+                w.bits((dist - T_DISTS[ds]) as u32, T_DEXT[ds]);
+            }
+        }
+    }
+    w.code(lc[256], ll[256] as u32);
+    w.finish()
+}
+
+fn nats_str(v: &[usize]) -> String {
+    v.iter().map(|x| x.to_string()).collect::<Vec<_>>().join(",")
+}
+
+fn gen_dy(rng: &mut Rng, w: &mut CaseWriter, n: usize) {
+    for i in 0..n {
+        let ts = match i {
+            0 => vec![],
+            1 => vec![Tok::Lit(97), Tok::Lit(98), Tok::Match(3, 1)],
+            _ => random_tokens(rng),
+        };
+        // literal/length alphabet: the symbols used, end-of-block, and a few unused ones
+        let mut lsyms = vec![256usize];
+        let mut dsyms: Vec<usize> = vec![];
+        for t in &ts {
+            let (l, d) = tok_symbols(t);
+            lsyms.push(l);
+            if let Some(d) = d {
+                dsyms.push(d);
+            }
+        }
+        for _ in 0..rng.below(40) {
+            lsyms.push(rng.below(286) as usize);
+        }
+        for _ in 0..rng.below(6) {
+            dsyms.push(rng.below(30) as usize);
+        }
+        lsyms.sort();
+        lsyms.dedup();
+        dsyms.sort();
+        dsyms.dedup();
+        let nlen = (lsyms.last().unwrap() + 1).max(257).max(rng.range(257, 286) as usize);
+        let ndist = (dsyms.last().map(|d| d + 1).unwrap_or(1)).max(rng.range(1, 30) as usize);
+        let ll = random_code_lengths(rng, &lsyms, 15, nlen);
+        let dl = random_code_lengths(rng, &dsyms, 15, ndist);
+        // code-length alphabet: a complete code over the length values that occur (>= 2 of them)
+        let mut vals: Vec<usize> = ll.iter().chain(dl.iter()).copied().collect();
+        vals.sort();
+        vals.dedup();
+        if vals.len() == 1 {
+            vals.push((vals[0] + 1) % 16);
+        }
+        let cll = random_code_lengths(rng, &vals, 7, 19);
+        w.push("dy", vec![nats_str(&cll), nats_str(&ll), nats_str(&dl), tokens_str(&ts)]);
+    }
+}
+
+fn gen_fx(rng: &mut Rng, w: &mut CaseWriter, n: usize) {
+    w.push("fx", vec![hex(&[])]);
+    w.push("fx", vec![hex(b"noodles")]);
+    w.push("fx", vec![hex(&(0..=255u8).collect::<Vec<_>>())]);
+    for _ in 0..n {
+        let (_, b) = small_block(rng);
+        w.push("fx", vec![hex(&b)]);
+    }
+}
+
 /// level-0 deflate of inputs of any length (one stored block per 65535 bytes)
 fn gen_st(rng: &mut Rng, w: &mut CaseWriter, thorough: bool) {
     let mut lens = vec![0usize, 1, 2, 300, 65494, 65495, 65534, 65535, 65536, 65537, 131069, 131070, 131071];
@@ -903,6 +1275,9 @@ fn generate(rng: &mut Rng, tier: &str, w: &mut CaseWriter) {
     gen_rdbig(rng, w, 30 * mul as usize);
     gen_inf(rng, w, 200 * mul as usize);
     gen_st(rng, w, thorough);
+    gen_fx(rng, w, 40 * mul as usize);
+    gen_tk(rng, w, 60 * mul as usize);
+    gen_dy(rng, w, 80 * mul as usize);
 }
 
 // -------------------------------------------------------------------------------------------
@@ -1057,6 +1432,44 @@ fn run_st(c: &Case) -> Obs {
     Obs::ok(obs, false)
 }
 
+fn run_fx(c: &Case) -> Obs {
+    let x = c.b(0);
+    let cd = fixed_literal_stream(&x);
+    let mut s = make_frame(&cd, &x);
+    s.extend(gz::EOF_BLOCK);
+    let (rd_obs, rd) = read_back(&s);
+    let obs = format!("{}|{}", hex(&cd), rd_obs);
+    match rd {
+        Ok(d) if d == x => Obs::ok(obs, false),
+        Ok(d) => Obs::fail(obs, "fixed-literal-mismatch", format!("the reader returned {} bytes for a {}-byte fixed-Huffman literal block", d.len(), x.len())),
+        Err(e) => Obs::fail(obs, "fixed-literal-rejected", format!("the reader rejects a fixed-Huffman literal block of {} bytes: {e}", x.len())),
+    }
+}
+
+fn run_tk(c: &Case) -> Obs {
+    let nats = |s: &str| -> Vec<usize> { s.split(',').map(|x| x.parse().unwrap()).collect() };
+    let dynamic = c.kind == "dy";
+    let ts = parse_tokens(&c.args[if dynamic { 3 } else { 0 }]);
+    let x = expand_tokens(&ts);
+    let cd = if dynamic {
+        dynamic_token_stream(&nats(&c.args[0]), &nats(&c.args[1]), &nats(&c.args[2]), &ts)
+    } else {
+        fixed_token_stream(&ts)
+    };
+    if x.len() > 65536 || cd.len() > MAX_CDATA {
+        return Obs { obs: "-".into(), verdict: "skip".into(), nontrivial: false };
+    }
+    let mut s = make_frame(&cd, &x);
+    s.extend(gz::EOF_BLOCK);
+    let (rd_obs, rd) = read_back(&s);
+    let obs = format!("{}|{}", hex(&cd), rd_obs);
+    match rd {
+        Ok(d) if d == x => Obs::ok(obs, false),
+        Ok(d) => Obs::fail(obs, if dynamic { "dynamic-tokens-mismatch" } else { "fixed-tokens-mismatch" }, format!("the reader returned {} bytes for a Huffman block that expands to {}", d.len(), x.len())),
+        Err(e) => Obs::fail(obs, if dynamic { "dynamic-tokens-rejected" } else { "fixed-tokens-rejected" }, format!("the reader rejects a Huffman block of {} tokens: {e}", ts.len())),
+    }
+}
+
 fn run_inf(c: &Case) -> Obs {
     let cd = c.b(0);
     let limit: usize = c.args[1].parse().unwrap();
@@ -1083,6 +1496,8 @@ fn run(c: &Case) -> Obs {
         "wr" => run_wr(c),
         "st" => run_st(c),
         "inf" => run_inf(c),
+        "fx" => run_fx(c),
+        "tk" | "dy" => run_tk(c),
         "rd" => run_rd(c),
         "rdbig" => run_rdbig(c),
         _ => Obs {
